@@ -441,3 +441,66 @@ pub fn eco_ports(rep: &mut Report, trace: &mut Vec<Value>) {
         }
     }
 }
+
+/// C09, destination clause: every datagram / connection of the definition-driven entry point goes to the caller's IP and to the
+/// given port, or to the definition's default port when none is given - for every row of the table, against a server that never
+/// answers (every probe of every auto-detecting entry is then visible) and one that refuses TCP connections.
+pub fn destinations(seed: u64, rep: &mut Report) {
+    let mut rng = StdRng::seed_from_u64(seed ^ 0xD357);
+    let mut ids: Vec<&str> = GAMES.keys().copied().collect();
+    ids.sort();
+    for id in ids {
+        if id == "eco" {
+            continue; // HTTP (ureq): ports are checked on real sockets by C14 `eco_ports`
+        }
+        let game = GAMES.get(id).unwrap();
+        let ips: [IpAddr; 3] = [
+            "127.0.0.1".parse().unwrap(),
+            IpAddr::V4(std::net::Ipv4Addr::new(rng.gen_range(1 ..= 223), rng.gen(), rng.gen(), rng.gen_range(1 ..= 254))),
+            "::1".parse().unwrap(),
+        ];
+        for (n, ip) in ips.iter().enumerate() {
+            for given in [None, Some(rng.gen_range(1024 ..= 65000u16)), Some(game.default_port.wrapping_add(1).max(1))] {
+                for refuse in [false, true] {
+                    let script = ScriptJ { conns: (0 .. 8).map(|_| ConnJ { refuse, on_send: vec![] }).collect() };
+                    let t = if n == 0 { None } else { crate::valve::timeouts(rng.gen_range(0 ..= 1)) };
+                    let rec = run_call_json(&script, DEFAULT_MAX_OPS, || {
+                        match query_with_timeout_and_extra_settings(game, ip, given, t, None) {
+                            Ok(r) => Ok(serde_json::to_value(r.as_original()).unwrap()),
+                            Err(e) => Err(format!("{:?}", e.kind)),
+                        }
+                    });
+                    rep.evaluations += 1;
+                    rep.distinct.insert(hash_of(&(id, n, given.is_some(), refuse)));
+                    let want = SocketAddr::new(*ip, given.unwrap_or(game.default_port));
+                    let mut opens = 0;
+                    let mut bad: Option<String> = None;
+                    for e in &rec.events {
+                        if let hook::Event::Open { addr, .. } = e {
+                            opens += 1;
+                            if *addr != want && bad.is_none() {
+                                bad = Some(if addr.ip() != want.ip() {
+                                    format!("generic:{id}: a request goes to another address than the caller's")
+                                } else if given.is_some() {
+                                    format!("generic:{id}: a request goes to port {} although the caller gave another port", addr.port())
+                                } else {
+                                    format!("generic:{id}: a request goes to port {} instead of the game's default port {}", addr.port(), game.default_port)
+                                });
+                            }
+                        }
+                    }
+                    if opens == 0 && bad.is_none() {
+                        if let Outcome::Panic { msg } = &rec.outcome {
+                            bad = Some(format!("generic:{id}: panic {}", crate::valve::first_line(msg)));
+                        }
+                    }
+                    if let Some(sig) = bad {
+                        rep.violation("C09", &sig, json!({"kind":"destinations","id":id,"ip":ip.to_string(),"given":given,"refuse":refuse,
+                            "want":want.to_string(),"events": rec.events.iter().filter_map(|e| if let hook::Event::Open{addr,..}=e {Some(addr.to_string())} else {None}).collect::<Vec<_>>(),
+                            "outcome": rec.outcome.to_json()}));
+                    }
+                }
+            }
+        }
+    }
+}
